@@ -270,6 +270,25 @@ def r3_guards(cx):
     _guard_dominates(cx, "R3", "R3/array-size-24-bits", g, ("Le", "Lt", "Gt", "Ge"), 0x00FFFFFF,
                      lambda b: [i for i, t in b.calls(r"PropertySize::<usize>::process$")],
                      "array_size <= 0x00FFFFFF is asserted before the array length column is sized (the reader accepts a length field of at most 3 bytes)")
+    # 2b. the length that sizes the column is the length that is written: every value reaching max_array_size.process
+    #     is the `size` field of the array value at hand (serialize_entry writes `a.size` with that column width)
+    gb = F.body(g)
+    ps = gb.calls(r"PropertySize::<usize>::process$")
+    if len(ps) != 1:
+        raise AnchorLost("Property::process: PropertySize::<usize>::process sites: %d" % len(ps))
+    src = op_local(ps[0][1]["args"][1])
+    hops = 0
+    while src is not None and hops < 6:
+        ds = [d for d in gb.defs().get(src, []) if d[0] == "stmt"]
+        if len(ds) == 1 and ds[0][3]["rv"]["k"] == "use" and op_local(ds[0][3]["rv"]["op"]) is not None:
+            src = op_local(ds[0][3]["rv"]["op"])
+            hops += 1
+        else:
+            break
+    ds = [d for d in gb.defs().get(src, []) if d[0] == "stmt"] if src is not None else []
+    not_size = [d[3].get("ln") for d in ds if not (d[3]["rv"]["k"] == "use" and "size" in place_fields(op_place(d[3]["rv"]["op"]) or {}))]
+    cx.ob("R3", "R3/array-length-measured", bool(ds) and not not_size, g,
+          "every arm of the array value match feeds the column sizing with `<array>.size` (%d arms; other sources at lines %s)" % (len(ds), not_size), ln=ps[0][1].get("ln"))
     # 3. ClusterCreator::add_content — evaluated in C01-R2 (same guard), referenced here
     h = F.one(impl_self="ClusterCreator", item="add_content", closure=False)
     c = F.const("cluster::MAX_BLOBS_PER_CLUSTER")
